@@ -22,6 +22,10 @@ def run(ctx):
     for cfg, prog in ctx.programs().items():
         n = guards.rule_defout(ctx, cfg, prog, name_filter=lambda f: 'Fq12' not in f['qn'] and 'miller' not in f['qn'])
         ctx.floor('R-DEFOUT accumulation functions[%s]' % cfg, n, 4)
+        from .. import cppword
+        ng = cppword.rule_glv_decompose(ctx, cfg, prog)
+        ng += cppword.rule_decompose(ctx, cfg, prog)
+        ctx.floor('R-WORDALG/c++ decomposition obligations[%s]' % cfg, ng, 1)
         scalar.rule_dispatch(ctx, cfg, prog)
         scalar.rule_carry(ctx, cfg, prog)
         scalar.rule_digit_guard(ctx, cfg, prog)
@@ -32,7 +36,3 @@ def run(ctx):
         ctx.floor('R-POLY/tables obligations[%s]' % cfg, nt, 4)
         nd = tables.rule_digit_loops(ctx, cfg, prog)
         ctx.floor('R-POLY/digits accumulator updates[%s]' % cfg, nd, 20)
-        from .. import cppword
-        ng = cppword.rule_glv_decompose(ctx, cfg, prog)
-        ng += cppword.rule_decompose(ctx, cfg, prog)
-        ctx.floor('R-WORDALG/c++ decomposition obligations[%s]' % cfg, ng, 1)
